@@ -1,7 +1,7 @@
 (* Property C16 -- size-class and address arithmetic is sound for every size and address.
    This file contains only statements, each closed by `exact <lemma>`, and Print Assumptions. *)
 From Coq Require Import NArith List.
-From MiV Require Import Gen.Consts Gen.Bins Model.Arith Proofs.Base Proofs.ArithSweeps Proofs.ArithProofs Proofs.BitsProofs.
+From MiV Require Import Gen.Consts Gen.Bins Model.Arith Proofs.Base Proofs.ArithSweeps Proofs.ArithProofs Proofs.BitsProofs Model.Direct Proofs.DirectProofs.
 Local Open Scope N_scope.
 
 (* the chosen block size is at least the request; small/medium requests get a proper bin *)
@@ -123,6 +123,27 @@ Example C16_ex_unalign : ptr_unalign 4096 48 (4096 + 7 * 48 + 47) = 4096 + 7 * 4
   /\ ptr_unalign 4096 64 (4096 + 7 * 64 + 63) = 4096 + 7 * 64
   /\ ptr_segment (5 * MI_SEGMENT_SIZE + 1) = 5 * MI_SEGMENT_SIZE
   /\ ptr_segment (6 * MI_SEGMENT_SIZE) = 5 * MI_SEGMENT_SIZE.
+Proof. vm_compute. repeat split. Qed.
+
+(* ---- the small-size direct table (fast path of mi_malloc) ---- *)
+
+(* mi_heap_queue_first_update re-establishes the direct table law after the first page of a queue changed:
+   entry w of pages_free_direct is the first page of queue mi_bin(8*w), for every small word size *)
+Theorem C16_direct_table_law : forall direct qf b first,
+  used_small_bin b = true -> direct_ok direct qf -> direct_ok (first_update direct b first) (upd qf b first).
+Proof. exact first_update_ok. Qed.
+Print Assumptions C16_direct_table_law.
+
+(* hence the page the fast path pops from belongs to the queue of the request's class, so that the
+   block size -- and mi_usable_size -- is bin_size (mi_bin n) = mi_good_size n *)
+Theorem C16_small_fast_path_class : forall direct qf size,
+  direct_ok direct qf -> size <= MI_SMALL_SIZE_MAX -> small_page direct size = qf (mi_bin size).
+Proof. exact small_fast_path_class. Qed.
+Print Assumptions C16_small_fast_path_class.
+
+Example C16_ex_direct : direct_ok_b (first_update direct_empty 4 77) (upd (fun _ => 0) 4 77) = true
+  /\ nth 3 (first_update direct_empty 4 77) 0 = 77 /\ nth 4 (first_update direct_empty 4 77) 0 = 77
+  /\ nth 5 (first_update direct_empty 4 77) 0 = 0.
 Proof. vm_compute. repeat split. Qed.
 
 (* non-vacuity: concrete instances *)
